@@ -1,0 +1,7 @@
+//go:build !verif
+
+package desync
+
+// verifYield marks a scheduling point used by the verification harness. It is
+// a no-op unless built with the 'verif' tag.
+func verifYield(site string) {}
